@@ -173,11 +173,13 @@ class Agg:
         if keep_digest:
             self.digests[order_key] = res['digest']
         if res['viol']:
-            seen = {v[1] for v in self.viol}
+            # keep a few instances per class: when the system under test carries state from one run to the
+            # next, the first instance may be reproducible only with its (unknown) predecessors
+            counts = Counter(v[1] for v in self.viol)
             for v in res['viol']:
-                if v['cls'] not in seen and len(self.viol) < 40:
+                if counts[v['cls']] < 4 and len(self.viol) < 120:
                     self.viol.append((order_key, v['cls'], case, v))
-                    seen.add(v['cls'])
+                    counts[v['cls']] += 1
         if len(self.samples) < 2 and res['nontrivial']:
             self.samples.append((order_key, mod.summarise(case) if hasattr(mod, 'summarise') else case))
 
@@ -214,11 +216,11 @@ def run_one(mod, case):
     case attached (never turned into a violation).  Modules that set RUN_TIMEOUT get a
     wall-clock watchdog (SIGALRM interrupts pure-Python loops and the regex engine alike): a run
     that exceeds it is a violation of class <PROP>:no-answer-within-<n>s, not a harness error."""
-    if 'history' in case:
+    if '_prior_runs' in case:
         # a violation that only shows after other runs of the same process (state kept in process-wide objects
         # of the system under test): the replayable unit is the sequence of cases, judged by its last one
         res = None
-        for c in case['history']:
+        for c in case['_prior_runs']:
             res = run_one(mod, c)
         return res
     limit = getattr(mod, 'RUN_TIMEOUT', None)
